@@ -135,6 +135,7 @@ func cmdCheck(args []string) int {
 
 	var allObls []*Obligation
 	var vacuity [][]*Obligation
+	var axiomChecks []*Obligation
 	var unitResults []*UnitResult
 	var engineErrs []string
 	var programs []*Program
@@ -240,6 +241,10 @@ func cmdCheck(args []string) int {
 			}
 			allObls = append(allObls, ur.Obls...)
 			vacuity = append(vacuity, ur.Vacuity)
+			if ur.AxiomCheck != nil {
+				ur.AxiomCheck.prog = p
+				axiomChecks = append(axiomChecks, ur.AxiomCheck)
+			}
 			for _, s := range ur.Inlined {
 				inlinedAll[s] = true
 			}
@@ -274,6 +279,7 @@ func cmdCheck(args []string) int {
 	results := discharge(allObls, outDir, timeout)
 	vres := dischargeVacuity(vacuity, outDir, timeout)
 	results = append(results, vres...)
+	results = append(results, dischargeAxiomChecks(axiomChecks, outDir)...)
 	for _, o := range staticObls {
 		st := "discharged"
 		if o.Goal != nil && o.Goal.IsFalse() {
@@ -741,4 +747,39 @@ func containsQuant(t *Term, seen map[*Term]bool) bool {
 		}
 	}
 	return false
+}
+
+// dischargeAxiomChecks: the precondition of a unit together with the universally quantified axioms and lemma instances
+// it uses is handed to the solvers as it is (quantifiers kept): a refutation means the proofs of that unit would be
+// vacuous. "sat" or no answer within the limit both count as not refuted.
+func dischargeAxiomChecks(obs []*Obligation, dir string) []*NamedResult {
+	var out []*NamedResult
+	var mu sync.Mutex
+	var wg sync.WaitGroup
+	sem := make(chan struct{}, 6)
+	for i, o := range obs {
+		wg.Add(1)
+		go func(i int, o *Obligation) {
+			defer wg.Done()
+			sem <- struct{}{}
+			defer func() { <-sem }()
+			r := Solve(dir, fmt.Sprintf("ax%d", i), o.prog.buildScript(o), 3)
+			nr := &NamedResult{Name: o.Unit + "#vacuity:axioms", Unit: o.Unit, Kind: "vacuity", Queries: 1, Solver: map[string]int{}, Time: r.Time, Src: o.Src, Status: "discharged"}
+			switch r.Status {
+			case "unsat":
+				nr.Status = "failed"
+				o.Res = r
+				nr.Failing = o
+			case "sat":
+				nr.Solver[r.Solver]++
+			default:
+				nr.Solver["not-refuted"]++
+			}
+			mu.Lock()
+			out = append(out, nr)
+			mu.Unlock()
+		}(i, o)
+	}
+	wg.Wait()
+	return out
 }
